@@ -10,7 +10,6 @@ import (
 	rt "github.com/craterdog/go-collection-framework/v4/verifrt"
 	"verif/checks/common"
 	"verif/engine"
-	"verif/engine/dump"
 )
 
 type listCase struct {
@@ -58,7 +57,7 @@ func concatenate(r *engine.Rec) {
 				if alias {
 					B = A
 				}
-				da, db := dump.Dump(A), dump.Dump(B)
+				da, db := common.View(A), common.View(B)
 				var res col.ListLike[int]
 				out := rt.Protect(2000000, func() { res = L.Concatenate(A, B) })
 				r.Evals++
@@ -68,7 +67,7 @@ func concatenate(r *engine.Rec) {
 					r.Violation("Concatenate fails", out.Value, c)
 				case !eq(res.AsArray(), want):
 					r.Violation("Concatenate is not a followed by b", fmt.Sprintf("%v + %v = %v", a, b, res.AsArray()), c)
-				case dump.Dump(A) != da || dump.Dump(B) != db:
+				case common.View(A) != da || common.View(B) != db:
 					r.Violation("Concatenate changes an operand", fmt.Sprint(a, b), c)
 				case any(res) == any(A) || any(res) == any(B):
 					r.Violation("Concatenate returns an operand", fmt.Sprint(a, b), c)
@@ -77,17 +76,17 @@ func concatenate(r *engine.Rec) {
 					if res.GetSize() > 1 {
 						res.SetValue(1, 8)
 					}
-					if dump.Dump(A) != da || dump.Dump(B) != db {
+					if common.View(A) != da || common.View(B) != db {
 						r.Violation("changing the result of Concatenate changes an operand", fmt.Sprint(a, b), c)
 						break
 					}
-					dr := dump.Dump(res)
+					dr := common.View(res)
 					A.AppendValue(7)
 					if B.GetSize() > 0 {
 						B.SetValue(1, 6)
 					}
 					B.RemoveAll()
-					if dump.Dump(res) != dr {
+					if common.View(res) != dr {
 						r.Violation("changing an operand changes the result of Concatenate", fmt.Sprint(a, b), c)
 					}
 				}
@@ -168,7 +167,7 @@ func merge(r *engine.Rec) {
 					B = A
 				}
 				ca, cb := contents(A), contents(B)
-				da, db := dump.Dump(A), dump.Dump(B)
+				da, db := common.View(A), common.View(B)
 				var res col.CatalogLike[string, int]
 				out := rt.Protect(4000000, func() { res = C.Merge(A, B) })
 				r.Evals++
@@ -199,7 +198,7 @@ func merge(r *engine.Rec) {
 					r.Violation("Merge fails", out.Value, c)
 				case !reflect.DeepEqual(contents(res), want):
 					r.Violation("Merge law violated", fmt.Sprintf("A=%v B=%v got %v want %v", ca, cb, contents(res), want), c)
-				case dump.Dump(A) != da || dump.Dump(B) != db:
+				case common.View(A) != da || common.View(B) != db:
 					r.Violation("Merge changes an operand", fmt.Sprint(ca, cb), c)
 				case any(res) == any(A) || any(res) == any(B):
 					r.Violation("Merge returns an operand", fmt.Sprint(ca, cb), c)
@@ -208,18 +207,18 @@ func merge(r *engine.Rec) {
 						res.SetValue(k, 99)
 					}
 					res.RemoveAll()
-					if dump.Dump(A) != da || dump.Dump(B) != db {
+					if common.View(A) != da || common.View(B) != db {
 						r.Violation("changing the result of Merge changes an operand", fmt.Sprint(ca, cb), c)
 						break
 					}
 					res = C.Merge(A, B)
-					dr := dump.Dump(res)
+					dr := common.View(res)
 					for _, k := range keyNames {
 						A.SetValue(k, 77)
 						B.SetValue(k, 66)
 					}
 					A.RemoveAll()
-					if dump.Dump(res) != dr {
+					if common.View(res) != dr {
 						r.Violation("changing an operand changes the result of Merge", fmt.Sprint(ca, cb), c)
 					}
 				}
@@ -264,13 +263,13 @@ func extract(r *engine.Rec) {
 			}
 			cat := mkCat(ck, 10)
 			cc := contents(cat)
-			dc := dump.Dump(cat)
+			dc := common.View(cat)
 			var names []string
 			for _, k := range ks {
 				names = append(names, keyNames[k])
 			}
 			keys := col.List[string](common.N()).MakeFromArray(names)
-			dk := dump.Dump(keys)
+			dk := common.View(keys)
 			var res col.CatalogLike[string, int]
 			out := rt.Protect(4000000, func() { res = C.Extract(cat, keys) })
 			r.Evals++
@@ -303,7 +302,7 @@ func extract(r *engine.Rec) {
 				r.Violation("Extract fails"+sig, out.Value, c)
 			case !reflect.DeepEqual(contents(res), want):
 				r.Violation("Extract law violated"+sig, fmt.Sprintf("catalog=%v keys=%v got %v want %v", cc, names, contents(res), want), c)
-			case dump.Dump(cat) != dc || dump.Dump(keys) != dk:
+			case common.View(cat) != dc || common.View(keys) != dk:
 				r.Violation("Extract changes an operand", fmt.Sprint(cc, names), c)
 			case any(res) == any(cat):
 				r.Violation("Extract returns its operand", fmt.Sprint(cc, names), c)
@@ -312,17 +311,17 @@ func extract(r *engine.Rec) {
 					res.SetValue(k, 99)
 				}
 				res.RemoveAll()
-				if dump.Dump(cat) != dc {
+				if common.View(cat) != dc {
 					r.Violation("changing the result of Extract changes the catalog", fmt.Sprint(cc, names), c)
 					break
 				}
 				res = C.Extract(cat, keys)
-				dr := dump.Dump(res)
+				dr := common.View(res)
 				for _, k := range keyNames {
 					cat.SetValue(k, 77)
 				}
 				cat.RemoveAll()
-				if dump.Dump(res) != dr {
+				if common.View(res) != dr {
 					r.Violation("changing the catalog changes the result of Extract", fmt.Sprint(cc, names), c)
 				}
 			}
